@@ -227,12 +227,29 @@ var strFilters = []filt{
 		return ": " + g.intLit() + ", " + fmt.Sprint(g.r.Range(0, 5))
 	}},
 	{"truncate", func(g *Gen, sc scope) string {
+		if g.r.Chance(0.15) {
+			return "" // every optional argument omitted
+		}
 		if g.r.Chance(0.5) {
 			return ": " + fmt.Sprint(g.r.Range(3, 12))
 		}
 		return ": " + fmt.Sprint(g.r.Range(3, 12)) + ", " + quote(pick(g.r, []string{"", "..", "~"}))
 	}},
-	{"truncatewords", func(g *Gen, sc scope) string { return ": " + fmt.Sprint(g.r.Range(1, 4)) }},
+	{"truncatewords", func(g *Gen, sc scope) string {
+		switch g.r.Intn(5) {
+		case 0:
+			return ""
+		case 1:
+			return ": " + fmt.Sprint(g.r.Range(1, 4)) + ", " + quote(pick(g.r, []string{"", "..", "~"}))
+		}
+		return ": " + fmt.Sprint(g.r.Range(1, 4))
+	}},
+	{"date", func(g *Gen, sc scope) string {
+		if g.r.Chance(0.3) {
+			return ""
+		}
+		return ": " + quote(pick(g.r, []string{"%Y-%m-%d", "%b %d, %y", "%H:%M", "%a"}))
+	}},
 	{"size", noArgs},
 	{"default", func(g *Gen, sc scope) string { return ": " + g.strLit() }},
 	{"hx", noArgs},
@@ -515,7 +532,7 @@ func (g *Gen) node(sc *scope, depth int) *TNode {
 		g.use("tag:case")
 		n := g.trim(&TNode{K: "block", S: "case " + pick(g.r, []string{g.numAtom(*sc), g.strAtom(*sc)})})
 		for i, k := 0, g.r.Range(1, 3); i < k; i++ {
-			w := pick(g.r, []string{g.intLit(), g.strLit(), g.intLit() + ", " + g.intLit()})
+			w := pick(g.r, []string{g.intLit(), g.strLit(), g.intLit() + ", " + g.intLit(), g.numAtom(*sc), g.strAtom(*sc), g.strAtom(*sc) + ", " + g.numAtom(*sc)})
 			n.Cl = append(n.Cl, &Clause{S: "when " + w, C: g.Nodes(*sc, depth+1, 2)})
 		}
 		if g.r.Chance(0.5) {
